@@ -9,6 +9,9 @@ Effects (receiver = the `&mut W` / `&mut R` parameter):
    r.read_exact(&mut buf)?      .readExact buf.length fun buf =>      (`buf` a local array, rebound)
    f(args, recv) for a translated f (the tail call of the dispatch functions)
    TypeId::of::<E>() == TypeId::of::<BigEndian>()      e = Endian.be   (`e`: the endianness parameter)
+   E::IS_BIG / E::IS_LITTLE                            e = Endian.be / e = Endian.le: decided with the constants
+                                                       src/traits/endianness.rs defines (tools/translate_endian.py),
+                                                       like the names `BigEndian`, `BE`, .. in the `TypeId` form
 A local array `[0u8; N]` is a `List Nat`: `buf[i]` is `buf.getD i 0`, `buf[i] = v` is `buf.set i v`
 (indices outside the array are outside the domain of the theorems); `x as u8` is `x % 256`.
 """
